@@ -365,6 +365,55 @@ fn query_entry_case<D0: crate::Distance>(d: usize, vector_len: Option<usize>) ->
     verdict
 }
 
+fn dot_preprocess_case() -> Vec<String> {
+    use crate::distance::DotProduct;
+    let mut verdict = vec![];
+    let dir = tempfile::tempdir().unwrap();
+    let env = unsafe { EnvOpenOptions::new().map_size(200 * 1024 * 1024).open(dir.path()) }.unwrap();
+    let mut wtxn = env.write_txn().unwrap();
+    let db: Database<DotProduct> = env.create_database(&mut wtxn, None).unwrap();
+    for nb in [6u16, 8u16] {
+        let wn = Writer::<DotProduct>::new(db, nb, 2);
+        wn.add_item(&mut wtxn, 1, &[1.0, 2.0]).unwrap();
+        wn.add_item(&mut wtxn, 2, &[2.0, 1.0]).unwrap();
+        let mut rng = StdRng::seed_from_u64(1);
+        wn.builder(&mut rng).n_trees(1).build(&mut wtxn).unwrap();
+    }
+    let raw = db.remap_types::<Bytes, Bytes>();
+    let others = |txn: &heed::RwTxn| -> Vec<(Vec<u8>, Vec<u8>)> {
+        raw.iter(txn).unwrap().map(|r| r.unwrap()).filter(|(k, _)| k[0..2] != 7u16.to_be_bytes())
+            .map(|(k, v)| (k.to_vec(), v.to_vec())).collect()
+    };
+    let before = others(&wtxn);
+    let w = Writer::<DotProduct>::new(db, 7, 2);
+    let data: [(u32, [f32; 2]); 4] = [(1, [3.0, 4.0]), (5, [0.0, 1.0]), (9, [1.0, 0.0]), (u32::MAX, [6.0, 8.0])];
+    for (i, v) in data {
+        w.add_item(&mut wtxn, i, &v).unwrap();
+    }
+    let mut rng = StdRng::seed_from_u64(0);
+    w.builder(&mut rng).n_trees(2).split_after(2).build(&mut wtxn).unwrap();
+    if others(&wtxn) != before {
+        verdict.push("building the dot-product index 7 modified entries of other indexes".into());
+    }
+    let max2 = 100.0f32;
+    for (i, v) in data {
+        match w.item_vector(&wtxn, i).unwrap() {
+            Some(got) if got == v.to_vec() => {}
+            other => verdict.push(format!("after the build item {i} reads back as {other:?}, written {v:?}")),
+        }
+        let kb = KeyCodec::bytes_encode(&Key::item(7, i)).unwrap().into_owned();
+        let bytes = raw.get(&wtxn, &kb).unwrap().unwrap();
+        let extra = f32::from_ne_bytes(bytes[1..5].try_into().unwrap());
+        let norm = f32::from_ne_bytes(bytes[5..9].try_into().unwrap());
+        let n2 = v[0] * v[0] + v[1] * v[1];
+        let want_extra = (max2 - n2).sqrt();
+        if (norm - max2).abs() > 1e-3 || (extra - want_extra).abs() > 1e-3 {
+            verdict.push(format!("header of item {i} after the build is (extra_dim {extra}, norm {norm}), expected ({want_extra}, {max2})"));
+        }
+    }
+    verdict
+}
+
 #[test]
 fn verif_replay() {
     let path = std::env::var("VERIF_SCENARIO").expect("VERIF_SCENARIO");
@@ -632,6 +681,9 @@ fn run_one(text: &str) {
                     _ => panic!("unsupported metric"),
                 };
                 verdict.extend(r);
+            }
+            "dot_preprocess" => {
+                verdict.extend(dot_preprocess_case());
             }
             "budget_equiv" => {
                 // leaving the budget unset with oversampling=o must equal search_k = count * n_trees * o
